@@ -412,7 +412,9 @@ impl<C> Inner<C> {
                         self.inflight.borrow_mut().remove(&packet_id);
                         Some(Encoded::Packet(Packet::PublishComplete { packet_id }))
                     }
-                    ProtocolMessageKind::PublishAck(_) => unreachable!(),
+                    ProtocolMessageKind::PublishAck(_) | ProtocolMessageKind::PublishReceived(_) => {
+                        unreachable!()
+                    }
                 };
                 Ok(packet)
             }
